@@ -80,7 +80,10 @@ class Diagonalization(Function):
 
         # (\tilde K)_{ij} = 1_{i\neq j} (\sigma_i - \sigma_j)^{-1}
         # add a small amount of jitter to ensure that no zeros are produced
-        kmat = (eigenvalues.unsqueeze(-1) - eigenvalues.unsqueeze(-2) + 1e-10).reciprocal()
+        # (regularised antisymmetrically: a jitter added to both (i, j) and (j, i) makes \tilde K + \tilde K^T nonzero,
+        # an error in the gradient that grows with the squared inverse eigenvalue gap)
+        evals_diff = eigenvalues.unsqueeze(-1) - eigenvalues.unsqueeze(-2)
+        kmat = evals_diff / (evals_diff.square() + 1e-20)
         torch.diagonal(kmat, dim1=-1, dim2=-2).zero_()
 
         # dU = U(\tilde K^T \hadamard (U^T dL/dU)U^T
